@@ -109,7 +109,7 @@ LOOKUP = MapT(STR, STR)
 EET0 = "_extract_enclosing_text(raw_val, '', '')"
 SKIP = "(%s[1] in reserved_words or %s[1] == '')" % (EET0, EET0)
 
-NEWPLAIN = "(not %s and %s[1] not in old(lookup) and not J9Valid(%s[1]))" % (SKIP, EET0, EET0)
+NEWPLAIN = "(not %s and %s[1] not in old(lookup) and not J9Decodable(%s[1]))" % (SKIP, EET0, EET0)
 BASE = "('netconanRemoved' + str(size(old(lookup))))"
 
 R.contract(M + "_anonymize_value",
@@ -130,9 +130,9 @@ R.contract(M + "_anonymize_value",
                "size(lookup) <= size(old(lookup)) + 1",
                # every processed secret is recorded (under the value itself, or under its plaintext for $9$ strings),
                # and the result carries the recorded replacement: later occurrences get the same one
-               "implies(not %s and not J9Valid(%s[1]), %s[1] in lookup and result == %s[0] + lookup[%s[1]] + %s[2])"
+               "implies(not %s and not J9Decodable(%s[1]), %s[1] in lookup and result == %s[0] + lookup[%s[1]] + %s[2])"
                % (SKIP, EET0, EET0, EET0, EET0, EET0),
-               "implies(not %s and J9Valid(%s[1]) and J9Dec(%s[1]) != '' and %s[1] not in old(lookup), "
+               "implies(not %s and J9Decodable(%s[1]) and J9Dec(%s[1]) != '' and %s[1] not in old(lookup), "
                "J9Dec(%s[1]) in lookup)" % (SKIP, EET0, EET0, EET0, EET0),
            ] + [
                # the replacement recorded for a NEW secret is this explicit function of the number of secrets seen so
